@@ -366,7 +366,7 @@ def r12_6(ctx: Ctx, rule: str = "R12.6") -> None:
                 ctx.fail(rule, f, c, "Worker.extract called without a parallel argument")
                 continue
             srcs = [par] + list(q.sources_of(f, par, depth=3))
-            ok = (isinstance(par, ast.Constant) and par.value is False) or any(isinstance(x, ast.Attribute) and x.attr == "_filePassed" for e in srcs for x in ast.walk(e))
+            ok = (isinstance(par, ast.Constant) and par.value is False) or shared.off_when(f, par, lambda e: isinstance(e, ast.Attribute) and e.attr == "_filePassed")
             ctx.check(ok, rule, f, c, f"{f.qname}: parallel only for archives opened by name",
                       f"{f.qname} asks Worker.extract for parallel folders without excluding archives passed as a stream (`parallel={norm(par)}`): the parallel branch "
                       "needs the file NAME and raises InternalError('Caught unknown variable status error') for every multi-folder archive opened from BytesIO or a file object",
